@@ -9,7 +9,7 @@ import numbers
 
 import six
 
-from .datatypes import NA, Quantity, Coordinate
+from .datatypes import NA, Quantity, Coordinate, XStr
 from .metadata import MetadataObject
 from .sortabledict import SortableDict
 
@@ -299,6 +299,7 @@ class Grid(col.MutableSequence):
                 or isinstance(val, list) \
                 or isinstance(val, dict) \
                 or isinstance(val, SortableDict) \
+                or isinstance(val, XStr) \
                 or isinstance(val, Grid):
             # Project Haystack 3.0 type.
             self._assert_version(VER_3_0)
